@@ -1,6 +1,8 @@
 import PestModel.Thm.EndToEnd
 import PestModel.Thm.C09
 import PestModel.Lemmas.PipelineNames
+import PestModel.Lemmas.PipelineIdents
+import PestModel.Lemmas.NoPanicParts
 /-!
 # From grammar TEXT to parses — the chain C07/C09 → C06 → C05 → C01/C02/C08 on one grammar text.
 -/
@@ -80,5 +82,61 @@ the reference denotation of the regenerated meta-grammar, `validate_pairs`, the 
 example : isOk (PestModel.Pipeline.parseAndOptimize false
     ['a',' ','=',' ','{',' ','"','x','"',' ','~',' ','b',' ','}','\n','b',' ','=',' ','{',' ','"','y','"',' ','}']) = true := by
   decide +kernel
+
+open PestModel.ReaderValue (idents) in
+/-- **From the grammar TEXT to "never panics"**: when the pipeline model of `parse_and_optimize` accepts a text, and the grammar
+it reads is stack-free, untagged and left alone by the `list` pass, then for every rule of the grammar as start rule and every
+input the VM model, run on what the pipeline returned, ends with pairs or with an error — no `undefined rule`, no index or slice
+out of range, no missing answer. The names come from `validate_pairs` (`pipeline_ok_idents`); the only assumption about the
+Unicode table is that it knows the property names the validator lets through. -/
+theorem pipeline_grammar_never_panics (extras : Bool) (text : Str) (rs : List ORule)
+    (h : PestModel.Pipeline.parseAndOptimize extras text = some (.ok rs)) :
+    ∃ rules, PestModel.ReaderFull.readGrammar extras text = some rules ∧
+      ((∀ r ∈ rules, PestModel.C06.StackFree r.expr = true) → (∀ r ∈ rules, NoTagE r.expr = true) →
+        optimizeWith extras false rules = some rs → rules.length ≤ 333333333 →
+        ∀ (uni : String → Option CharSet),
+          (∀ n, PestModel.V.isBuiltin n = true → ¬ n ∈ PestModel.Gen.Unicode.builtinsExplicit → (uni n).isSome = true) →
+        ∀ (memchr detail : Bool) (name : String), name ∈ rules.map (·.name) → ∀ (input : Str),
+          ∃ fuel, match PestModel.C01.vmParse rs uni memchr detail fuel name input with
+            | .ok _ => True
+            | .err _ => True
+            | .panic => False
+            | .fuel => False) := by
+  obtain ⟨rules, hread, hva, ho, hnd, hkw, hid, hpc⟩ := PestModel.Pipeline.pipeline_ok_idents extras text rs h
+  refine ⟨rules, hread, fun sf nt li sm uni huni memchr detail name hname input => ?_⟩
+  have hlen : rs.length = rules.length := by
+    unfold optimizeWith at li
+    cases hm : rules.mapM (fun r => (astPasses extras false rules r).bind fun r =>
+        (toOptimized extras r.expr).map fun e => (⟨r.name, r.ty, e⟩ : ORule)) with
+    | none => simp [hm] at li
+    | some opt =>
+      simp only [hm, Option.some.injEq] at li
+      rw [← li, List.length_map]
+      exact length_mapM_some _ _ _ hm
+  have hacc : Accepted extras rules rs :=
+    ⟨hnd, fun r hr hc => hkw r hr (by rw [hc]; decide), sf, nt, hva, ho, li, by omega⟩
+  let c : Ctx := { rules, input, extras, uni }
+  have hnameOK : ∀ r ∈ rules, ∀ n ∈ idents r.expr, nameOK c n = true := by
+    intro r hr n hn
+    have hsb := stackFree_idents r.expr (sf r hr) n hn
+    rcases hid r hr n hn with hdef | hb
+    · simp only [nameOK, Bool.or_eq_true]
+      exact .inl (.inl (has_of_mem_names (c := c) (by simpa using hdef)))
+    · by_cases hex : n ∈ PestModel.Gen.Unicode.builtinsExplicit
+      · simp only [nameOK, Bool.or_eq_true]
+        exact .inl (.inr (explicit_plain n hex hsb))
+      · have hu := huni n hb hex
+        have h1 : n ≠ "PEEK" := fun he => hex (by rw [he]; decide)
+        have h2 : n ≠ "POP" := fun he => hex (by rw [he]; decide)
+        simp only [nameOK, Bool.or_eq_true, Bool.and_eq_true, decide_eq_true_eq]
+        exact .inr ⟨⟨h1, h2⟩, hu⟩
+  have hns : RulesNS c := by
+    intro nm id r hr
+    obtain ⟨_, hmem, _⟩ := PestModel.V.lookup_of_rule? hr
+    exact ns_of_parts c r.expr (sf r hmem) (hpc r hmem) (hnameOK r hmem)
+  have hstart : nameOK c name = true := by
+    simp only [nameOK, Bool.or_eq_true]
+    exact .inl (.inl (has_of_mem_names (c := c) (by simpa using hname)))
+  exact accepted_ns_grammar_never_panics extras rules rs hacc uni memchr detail name input hns hstart
 
 end PestModel.E2E
